@@ -123,6 +123,32 @@ func cmdDump(args []string) {
 		}
 	}
 	for _, sf := range e.specFiles {
+		if len(sf.Globals) == 0 {
+			continue
+		}
+		show := len(want) == 0
+		for _, w := range want {
+			if strings.Contains("globals "+sf.Pkg, w) {
+				show = true
+			}
+		}
+		if !show {
+			continue
+		}
+		rep := e.verifyGlobals(sf)
+		solveAll(rep.Obls, solveOpts{timeoutS: *timeout, workDir: work, jobs: 8, only: *only})
+		fmt.Printf("== globals of %s: %d blocks %d instrs, %d obligations\n", sf.Pkg, rep.Blocks, rep.Instrs, len(rep.Obls))
+		for _, s := range rep.SpecErrs {
+			fmt.Println("   SPEC ERROR:", s)
+		}
+		for k, v := range rep.Notes {
+			fmt.Printf("   note: %s x%d\n", k, v)
+		}
+		for _, o := range rep.Obls {
+			fmt.Printf("   %-7s %-9s %5.2fs %s\n", o.Result, o.Solver, o.TimeS, o.Name)
+		}
+	}
+	for _, sf := range e.specFiles {
 		for _, l := range sf.Lemmas {
 			if len(want) > 0 {
 				ok := false
